@@ -218,10 +218,20 @@ def run(chk: Check):
                 real_b = gen_data(rng, 1, real.shape[0], real.shape[1])[1]
                 used.compute_loss(sim_b, real); used.compute_loss(sim, real); used.compute_loss(sim_b, real_b)
                 got_used = float(used.compute_loss(sim, real))
+                # ... and the caller keeps the empirical series in ONE buffer that it refills in place (a rolling window, re-scaled units): the object is
+                # evaluated on the buffer holding other data, the buffer is overwritten with new data, and the value is the one of the data now in the buffer
+                buf = np.array(real_b * 0.5 - 1.0, copy=True)      # data the object has not seen either
+                used.compute_loss(sim, buf)
+                buf[...] = real * 1.5 + 0.25            # data the object has never seen
+                got_buf = float(used.compute_loss(sim, buf))
+                fresh_buf = float(mk().compute_loss(sim, np.array(buf, copy=True)))
             except Exception as ex:  # noqa: BLE001
                 chk.fail(f"{which} raised {type(ex).__name__}: {str(ex)[:100]} on admissible input when one loss object is evaluated several times", case)
                 continue
         chk.count("used_object_re-evaluated")
+        if f2h(got_buf) != f2h(fresh_buf) and not (got_buf != got_buf and fresh_buf != fresh_buf):
+            chk.fail(f"{which} {case['case']['options']}: evaluated on a real-data buffer that the caller has refilled in place (with real*1.5+0.25) since the object's previous evaluation, "
+                     f"the loss is {got_buf!r}; a fresh object on the data now in the buffer gives {fresh_buf!r}", case)
         if f2h(got_used) != f2h(got):
             chk.fail(f"{which} {case['case']['options']}: a loss object that has been evaluated before (on other simulated data, on the same data, on other real data) returns {got_used!r} "
                      f"where a fresh object returns {got!r} (documented definition {want!r})", case)
